@@ -391,7 +391,7 @@ def getenv_batch(rep, scr, impl, md, consts, pid, var, tier, seed):
 
 C02_QUERY = ['wcsnlen_s', 'strcmp_s', 'strcasecmp_s', 'strfirstdiff_s', 'strfirstsame_s', 'strlastdiff_s', 'strlastsame_s', 'strprefix_s', 'strspn_s', 'strcspn_s', 'strpbrk_s', 'strstr_s',
              'strcasestr_s', 'strchr_s', 'strrchr_s', 'strfirstchar_s', 'strlastchar_s', 'memchr_s', 'memrchr_s', 'memcmp_s', 'strisalphanumeric_s', 'strisascii_s', 'strisdigit_s', 'strishex_s',
-             'strislowercase_s', 'strismixedcase_s', 'strisuppercase_s', 'wcscmp_s', 'wcsncmp_s', 'wcsstr_s']
+             'strislowercase_s', 'strismixedcase_s', 'strisuppercase_s', 'wcscmp_s', 'wcsncmp_s', 'wcsstr_s', 'strnatcmp_s', 'strcoll_s', 'strcmpfld_s', 'strispassword_s']
 def c02_query_extents(rep, scr, impl, md, consts, tier, seed):
     """read-only functions on unterminated arrays that exactly fill their declared size, flush against an unreadable page"""
     cs = []; k = [0]
@@ -429,6 +429,12 @@ def c02_query_extents(rep, scr, impl, md, consts, tier, seed):
                     add(f, [res, ('R', D)], [(1, 0), n, ch, (0, 0), UNK], n=n, fill=name, ch=ch, which='dest')
             for f in ('strisalphanumeric_s', 'strisascii_s', 'strisdigit_s', 'strishex_s', 'strislowercase_s', 'strismixedcase_s', 'strisuppercase_s'):
                 add(f, [res, ('R', D)], [(1, 0), n, UNK], n=n, fill=name, which='dest')
+            # further comparisons (natural order, collation, fields) and the password predicate
+            for sn, S in srcs.items():
+                add('strnatcmp_s', [res, ('R', D), ('R', S)], [(1, 0), n, (2, 0), 0, (0, 0), UNK, UNK], n=n, fill=name, src=sn, which='dest')
+                add('strcoll_s', [res, ('R', D), ('R', S)], [(1, 0), n, (2, 0), (0, 0), UNK], n=n, fill=name, src=sn, which='dest')
+            add('strcmpfld_s', [res, ('R', D), ('R', D[:-1] + b'z')], [(1, 0), n, (2, 0), (0, 0), UNK], n=n, fill=name, src='field', which='both')
+            add('strispassword_s', [res, ('R', bytes([0x61, 0x42, 0x31, 0x21, 0x63, 0x44, 0x32, 0x23][:max(n, 6)]))], [(1, 0), max(n, 6), UNK], n=max(n, 6), fill='password', which='dest')
     cf = '%s/cases_c02q.txt' % scr.dir
     with open(cf, 'w') as f:
         for c in cs: f.write(c.line() + '\n')
